@@ -50,8 +50,19 @@ def _case(draw):
 
     d = draw(st.one_of(P.directory(1, 3, rich=False, max_headers=3, all_zids=True, canonical_spacing=True),
                        G.directory(n_pages=(2, 3), notes_per_page=(2, 4))))
-    return {"dir": d,
-            "steps": draw(st.lists(edits.step(), min_size=3, max_size=14))}
+    steps = draw(st.lists(edits.step(), min_size=3, max_size=14))
+    if draw(st.integers(0, 3)) == 0:
+        # a page vanishes, the index learns about it, and the page comes back byte-identical under its old
+        # name (rename undone, restored from a backup): a shape single steps rarely line up by themselves
+        sel = {"p": draw(st.integers(0, 50)), "n": 0}
+        gone = dict(sel, op="del_page") if draw(st.booleans()) else dict(sel, op="rename_page", sub=draw(st.booleans()))
+        macro = [gone, {"op": "reindex"}]
+        if draw(st.booleans()):
+            macro.append(draw(edits.step(allow_page_ops=False)))
+        macro += [{"op": "restore_page", "n": draw(st.integers(0, 3))}, {"op": "reindex"}]
+        at = draw(st.integers(0, len(steps)))
+        steps[at:at] = macro
+    return {"dir": d, "steps": steps}
 
 
 def canon(d: dict) -> dict:
